@@ -533,8 +533,8 @@ end KV.FilePiece
 double-conversion's `StringToIeee` with kenlm's flags (ALLOW_TRAILING_JUNK | ALLOW_LEADING_SPACES, "inf", "NaN",
 empty and junk strings give NaN) followed by kenlm's test `isnan(out) && str != "NaN" && str != "nan"`
 (file_piece.cc:189-200).  Values are the IEEE bit patterns (via Lean's `Float`/`Float32.ofScientific`);
-`nanCode` stands for any NaN.  This grammar does **not** satisfy `GrammarOK.prefix_det` on the tokens
-`NaN` / `nan` (Properties/C18 `nan_not_prefix_determined`; known finding `nan-token-window-end`). -/
+`nanCode` stands for any NaN.  Today's NaN test (`gFloatOld`) does **not** satisfy `GrammarOK.prefix_det` on the
+tokens `NaN` / `nan` (Properties/C18 `Old.nan_not_prefix_determined`); the repaired one (`gFloat`) does on all. -/
 namespace KV.FilePiece
 
 inductive Conv
@@ -610,15 +610,32 @@ def toFloatBits (neg : Bool) (m : Nat) (e : Int) : Nat :=
 /-- value used for NaN in the protocol (`V nan`) -/
 def nanCode : Int := -(2^70)
 
-/-- kenlm's `ParseNumber(StringPiece str, float/double&)`: the converter, then
-`isnan(out) && str != "NaN" && str != "nan"` ⇒ ParseNumberException. -/
+/-- kenlm's `ParseNumber(StringPiece str, float/double&)` as repaired (file_piece.cc:189-200): the converter, then
+`isnan(out) && StringPiece(str.data(), count) != "NaN"` ⇒ ParseNumberException: NaN is accepted exactly when
+the converter consumed the literal `NaN` symbol (no sign); junk and the empty string (count 0) are rejected. -/
 def gFloat (dbl : Bool) (s : List Byte) : Option (Int × Nat) :=
+  match conv s with
+  | .junk => none
+  | .nan cnt => if s.take cnt == [78, 97, 78] then some (nanCode, cnt) else none
+  | .inf neg cnt => some (((if dbl then toDoubleBits neg 1 1000 else toFloatBits neg 1 1000 : Nat) : Int), cnt)
+  | .val neg m e cnt => some (((if dbl then toDoubleBits neg m e else toFloatBits neg m e : Nat) : Int), cnt)
+
+/-- the same before the repair: `isnan(out) && str != "NaN" && str != "nan"` with `str` = everything from
+`position_` to the last space of the window -/
+def gFloatOld (dbl : Bool) (s : List Byte) : Option (Int × Nat) :=
   let ok := s == [78, 97, 78] || s == [110, 97, 110]
   match conv s with
   | .junk => if ok then some (nanCode, 0) else none
   | .nan cnt => if ok then some (nanCode, cnt) else none
   | .inf neg cnt => some (((if dbl then toDoubleBits neg 1 1000 else toFloatBits neg 1 1000 : Nat) : Int), cnt)
   | .val neg m e cnt => some (((if dbl then toDoubleBits neg m e else toFloatBits neg m e : Nat) : Int), cnt)
+
+/-- today's grammars (`fixN = false`: the NaN test on the whole window string) -/
+def grammarOld : NumKind → Grammar
+  | .float => gFloatOld false
+  | .double => gFloatOld true
+  | .long => gLong
+  | .ulong => gULong
 
 def grammar : NumKind → Grammar
   | .float => gFloat false
